@@ -88,6 +88,8 @@ UND = {
     'diffusion_efficiency': (lambda A: bct.diffusion_efficiency(A) if ss.is_connected(A) and A.any() else (0.0, np.zeros((len(A),) * 2)), 'sm'),
     'distance_wei[D]': (lambda A: bct.distance_wei(A)[0], 'm'), 'betweenness_wei': (bct.betweenness_wei, 'v'),
     'edge_betweenness_wei': (bct.edge_betweenness_wei, 'mv'), 'efficiency_wei[local]': (lambda A: bct.efficiency_wei(A, local=True), 'v'),
+    'resource_efficiency_bin[.5]': (lambda A: bct.resource_efficiency_bin(A, 0.5), 'mm'),
+    'resource_efficiency_bin[0]': (lambda A: bct.resource_efficiency_bin(A, 0), 'mm'),
 }
 SIGNED = {
     'strengths_und_sign': (bct.strengths_und_sign, 'vvss'),
